@@ -589,8 +589,8 @@ def main(pid, tier):
         "provider versions (library, models) have numbers below 100 (HaveCodes coding) and below 10^9",
         "numbers of 10 or more significant digits saturate in the spec: an incompatible one must be refused, "
         "refusing a compatible one is an accepted implementation limit",
-        "empty components, a fourth component, blanks/+/-0 spellings are Unspecified; if the lenient reading "
-        "is incompatible the string must be refused under both readings",
+        "every string outside the grammar N.N.N[-suffix] is malformed and must be refused (empty components, a "
+        "fourth component, blanks and signs included)",
         "the core model (ovni) not required by any stream is Unspecified (the runtime always requires it)",
         "model names, versions and the harmless event pair of each model come from spec/data/events.json",
         "TLC results are exhaustive within the stated constants"]
